@@ -146,6 +146,51 @@ def rule_W3(ctx):
     ctx.analysed(cp, setter, ps)
 
 
+def rule_W4(ctx):
+    """run.setup_samplers hands ONE kernel (and one tree_dist, one generator) to several samplers.  A constructor that
+    stores into an attribute of an object it is given re-configures that object for every other holder: the kernel's
+    permutation distribution switched off by the burn-in sampler is switched off for the particle-Gibbs sampler too."""
+    prog = ctx.prog
+    ctx.rule("W4", "sampler / kernel / proposal constructors configure only the object under construction: no store into an attribute (or element) of an argument", 10)
+    n = 0
+    for ci in prog.classes.values():
+        mod = ci.module.name
+        if not (".smc." in mod or ".mcmc." in mod or mod.endswith(".mcmc") or mod.endswith(".smc")):
+            continue
+        init = ci.methods.get("__init__")
+        if init is None:
+            continue
+        n += 1
+        params = [p_ for p_ in init.params[1:]]
+        me = init.params[0] if init.params else "self"
+        bad = []
+        for node in ast.walk(init.node):
+            tg = []
+            if isinstance(node, ast.Assign):
+                tg = node.targets
+            elif isinstance(node, (ast.AugAssign, ast.AnnAssign)):
+                tg = [node.target]
+            elif isinstance(node, ast.Delete):
+                tg = node.targets
+            elif isinstance(node, ast.Call) and isinstance(node.func, ast.Name) and node.func.id in ("setattr", "delattr") and node.args:
+                tg = [ast.Attribute(value=node.args[0], attr="?", ctx=ast.Store())]
+            for t in tg:
+                for x in ([t] if isinstance(t, (ast.Attribute, ast.Subscript)) else list(getattr(t, "elts", []))):
+                    if not isinstance(x, (ast.Attribute, ast.Subscript)):
+                        continue
+                    root = x
+                    while isinstance(root, (ast.Attribute, ast.Subscript)):
+                        root = root.value
+                    if isinstance(root, ast.Name) and root.id in params and root.id != me:
+                        rebound = any(isinstance(a, ast.Assign) and any(isinstance(tt, ast.Name) and tt.id == root.id for tt in a.targets) and a.lineno < node.lineno for a in ast.walk(init.node))
+                        if not rebound:
+                            bad.append((node, u(x)))
+        ctx.check(not bad, "W4", "%s.__init__ leaves its arguments as it found them" % ci.name, init.where(bad[0][0]) if bad else init.where(), "the constructor stores into %s, an object it was handed and that its caller goes on sharing with other samplers" % ", ".join(sorted({b for _, b in bad})), construct=init.qualname, stmt="store into argument")
+        ctx.analysed(init)
+    if n < 10:
+        raise AnalysisError("W4: only %d sampler / kernel constructors found" % n)
+
+
 def rule_W2(ctx):
     prog = ctx.prog
     ctx.rule("W2", "one TreeJointDistribution(FSCRPDistribution(...)) per chain reaches the kernel and every density-evaluating sampler", 6)
@@ -521,6 +566,7 @@ def run(ctx):
     ctx.assume("numpy Generator.multinomial / shuffle draw from the stated laws")
     ctx.soft(rule_W1)
     ctx.soft(rule_W2)
+    ctx.soft(rule_W4)
     ctx.soft(rule_W3)
     ctx.soft(rule_K1)
     ctx.soft(rule_K2)
